@@ -11,6 +11,14 @@ open FxVerif.Gen.C16 FxVerif.Model.C16
 /-- obligation over the regenerated table: every handler is guarded, or forwards to a guarded one -/
 theorem all_handlers_guarded : handlers.all (fun h => shapeOk handlers h.shape) = true := by decide
 
+/-- obligation over the regenerated wiring facts: the authority every fx-core keeper (and the ethermint EVM / fee-market
+keeper) compares against is the governance module account, as constructed in app/keepers/keepers.go -/
+theorem authority_wired_to_gov :
+    authAddrDef = "authtypes.NewModuleAddress(govtypes.ModuleName).String()" ∧
+    wiring.length ≥ 10 ∧
+    wiring.all (fun w => w.2 == "authAddr" || w.2 == "authtypes.NewModuleAddress(govtypes.ModuleName)") = true := by
+  decide
+
 /-- a protected shape rejects every authority that is not the governance account (even modulo ASCII case), whatever the
 rest of the handler does, and leaves the state exactly as it was -/
 theorem protected_shape_rejects {σ : Type} (tbl : List Handler) (sh : Shape) (gov auth : List Char) (routeOk : Bool)
